@@ -6,6 +6,7 @@ from ..symexec import SymExec, PState, Lin, Ptr, NULLP
 from ..tables import base_name
 from .. import pp
 
+RETRY_INLINED = True
 LEVEL = 'other'
 
 H = 8   # sizeof(size_t) on the analysed target (LP64); every rule compares expressions, not this number
